@@ -125,7 +125,12 @@ def specGetFrameH (a : AState) (h : CH) (name : Option Name) : Except Code CH :=
 def specAllFrames (a : AState) (h : CH) : Except Code (List CH) :=
   .ok ((a.frames.filter (fun f => f.parent == h.id)).map (fun f => { id := f.cid, code := f.nameOrig, isBlock := false }))
 
-/-- cif_container_destroy: the container goes, with its loops; the save frames directly under it lose their place in the tree -/
+/-- cif_container_destroy: the container goes, with its loops; the save frames directly under it lose their place in the tree.
+    NOTE (review rA, A.9): cif.h says "removes the associated container and all its contents"; this state-level function keeps the
+    container rows and loops of the frames NESTED in the destroyed container as unreachable garbage (as the store does: only the
+    save_frame rows cascade).  They are not part of the CIF: the tree view `AState.tree` — what every dump, walk and query from a
+    block shows — does not contain them, and the contract (`CH.okB` / `LH.okB`, Model/StoreContract `Db.inCif`) rejects every handle on
+    them, so no in-contract history reads or writes them.  The state itself is not pruned (tools/props/C04.py PARTIAL). -/
 def specDestroyContainer (a : AState) (h : CH) : AState × Except Code Unit :=
   if (a.containers.filter (fun c => c.id == h.id)).length == 0 then (a, .error CIF_INVALID_HANDLE)
   else ({ a with containers := a.containers.filter (fun c => !(c.id == h.id)),
@@ -451,13 +456,8 @@ def itOnLh (a : AWorld) (l : Nat) : Bool := a.its.any (fun e => match e with | s
 
 end AWorld
 
-/-- the ops `specStep` covers: all 31 (kept so that earlier statements `op.covered = true` stay meaningful: `Op.covered_all`) -/
-def Op.covered : Op → Bool := fun _ => true
-
-theorem Op.covered_all (op : Op) : op.covered = true := rfl
-
 open World in
-/-- one call of a history on the documented model (always `some`: every op is covered) -/
+/-- one call of a history on the documented model (always `some`: every one of the 31 ops has its case) -/
 def specStep (a : AWorld) : Op → Option (AWorld × Result)
   | .addPkt l p =>
     match a.liveL l with
